@@ -1,6 +1,8 @@
 ---------------------------- MODULE MCReplicator ----------------------------
 EXTENDS Replicator
 \* a chain 1 <- 2 <- 3 with refs (3 also refers to 1) and a fork 4 on top of 2
+\* entry 4 links to 2 and to a block nobody provides (5)
+LinksI == (1 :> <<>> @@ 2 :> <<1>> @@ 3 :> <<2, 1>> @@ 4 :> <<2, 5>> @@ 5 :> <<>>)
 LinksDef == (1 :> <<>> @@ 2 :> <<1>> @@ 3 :> <<2, 1>> @@ 4 :> <<2, 1>>)
 \* two earlier requests and the final one; request 2 mixes an older head with a fork
 HeadsA == (1 :> <<3>> @@ 2 :> <<2, 4>> @@ 3 :> <<3, 4>>)
